@@ -144,7 +144,9 @@ func c19Gen(r *Run, rng *gen.Rng, corpus []string) *c19Inv {
 		nm := rng.Pick([]string{"a.b.tsh", "noext", "my prog.tsh", "rel.v1/prog.tsh", "x.y.z", "UPPER.TSH", "prog.tsh.bak", "sub dir/m.tsh", "p.", "tsh", "bash", "batch", "out", "-x.tsh", "my%20prog.tsh", "100%.tsh", "50%done.v2.tsh", "%s.tsh", "report[1].tsh", "a*b.tsh", "q?.tsh",
 			"prüfung.tsh", "テスト.tsh", "übung", "naïve.v2.tsh", "é.tsh", "Ünïcödé prog.tsh",
 			// an inner extension that is the extension of a target; blanks at the edges of the name
-			"deploy.sh.tsh", "setup.bat.tsh", "install.sh.in", "run.bat.v2", "a.sh.b.tsh", "prog.tsh.tsh", "notes ", "report.tsh ", " lead.tsh", " both ends .tsh "})
+			"deploy.sh.tsh", "setup.bat.tsh", "install.sh.in", "run.bat.v2", "a.sh.b.tsh", "prog.tsh.tsh", "notes ", "report.tsh ", " lead.tsh", " both ends .tsh ",
+			// names a shell would expand (tsh is not a shell)
+			"~scratch.tsh", "~", "~root.tsh", "$HOME.tsh", "${x}.tsh"})
 		// imports are relative to the main file's directory: keep the directory, change the base name
 		nm = path.Join(path.Dir(main), path.Base(nm))
 		if rng.Chance(33) && path.Dir(main) == "." && len(gw.Closure) == 1 {
